@@ -352,7 +352,7 @@ func (a *act) exec(instr ssa.Instruction, guard string, st *State) {
 			if _, isStruct := et.Underlying().(*types.Struct); isStruct && !isCid(et) {
 				unsupportedf("slice of struct values %s", xt)
 			}
-			a.vals[in] = Val{T: "elemaddr", S: SRef, GT: in.Type(), Loc: &Loc{Heap: "Elem!" + typeName(et), Obj: App("sbase", x.T), Idx: fmt.Sprintf("(+ (soff %s) %s)", x.T, idx.T), GT: et}}
+			a.vals[in] = Val{T: "elemaddr", S: SRef, GT: in.Type(), Loc: &Loc{Heap: "Elem!" + typeName(et), Obj: App("sbase", x.T), Idx: fmt.Sprintf("(sidx %s %s)", x.T, idx.T), GT: et}}
 		case *types.Pointer:
 			arr := xt.Elem().Underlying().(*types.Array)
 			a.nilObl(x, guard, in.Pos(), what)
@@ -404,6 +404,10 @@ func (a *act) exec(instr ssa.Instruction, guard string, st *State) {
 				fx.ctx.Assert(Imp(guard, f))
 			}
 			lv := Val{T: t, S: a.sortOf(in.Type()), GT: in.Type()}
+			if g, isG := in.X.(*ssa.Global); isG && lv.S == SIface && strings.HasPrefix(g.Name(), "Err") && fx.eng.globalNeverStored(g) {
+				fx.ctx.Assert(Imp(guard, Not(Eq(App("itag", t), "0"))))
+				fx.eng.assume("package-level Err* variables are initialised to non-nil errors (no function of the module assigns them: checked)")
+			}
 			if sv, ok := fx.cellFns[loc.Heap+"|"+loc.Obj]; ok && sv.Fn != nil {
 				lv.Fn, lv.Bind, lv.T = sv.Fn, sv.Bind, sv.T
 			}
@@ -465,6 +469,7 @@ func (a *act) exec(instr ssa.Instruction, guard string, st *State) {
 			binds = append(binds, a.val(b, st))
 		}
 		c := fx.ctx.Fresh("closure!"+fn.Name(), SFn)
+		fx.ctx.Assert(Not(Eq(c, "fn!nil")))
 		a.vals[in] = Val{T: c, S: SFn, GT: in.Type(), Fn: fn, Bind: binds}
 	case *ssa.MakeMap:
 		r := fx.alloc(st, "map")
@@ -682,6 +687,10 @@ func (a *act) binop(in *ssa.BinOp, guard string, st *State) Val {
 	var t string
 	switch in.Op {
 	case token.ADD:
+		if phi, ok := in.X.(*ssa.Phi); ok && phi.Comment == "rangeindex" && y.T == "1" {
+			// range counters stay below the length (auto-invariant, proved separately), so the increment cannot overflow
+			return Val{T: fmt.Sprintf("(+ %s 1)", x.T), S: SInt, GT: in.Type()}
+		}
 		t = App(ii.wrapFn(), fmt.Sprintf("(+ %s %s)", x.T, y.T))
 	case token.SUB:
 		t = App(ii.wrapFn(), fmt.Sprintf("(- %s %s)", x.T, y.T))
@@ -792,6 +801,14 @@ func (a *act) typeAssert(in *ssa.TypeAssert, guard string, st *State) Val {
 		// interface-to-interface
 		impls := fx.eng.implementers(at)
 		srcClosed := fx.eng.isClosedIface(in.X.Type())
+		if srcClosed {
+			var alts []string
+			alts = append(alts, Eq(App("itag", x.T), "0"))
+			for _, c := range fx.eng.implementers(in.X.Type()) {
+				alts = append(alts, Eq(App("itag", x.T), fx.ctx.Tag(typeName(c))))
+			}
+			fx.ctx.Assert(Imp(guard, Or(alts...)))
+		}
 		if len(impls) > 0 && (srcClosed || fx.eng.isClosedIface(at)) {
 			var alts []string
 			for _, c := range impls {
